@@ -22,6 +22,8 @@ ops   c01 [cfg, R, W, classes_only]      lines of list(Segment.split_lines(conso
                                          render_lines: their final crop would mask an overflowing child)
       c09 [cfg, R, avail, classes_only]  [Measurement.get(console, r, avail), [lines at the maximum, lines at the minimum]]
       text_measure [s, fix]  /  text_at_max [s, fix, justify?, overflow?]
+      fits_raw [cfg, R, W]               as c01, checked with plain fits_b W lines (no domain guard); used only by the
+                                         known-finding witness corpus/C01_known/*.json -- no generator emits it
 cfg = [console width, fix_d20]; results carry their outcome class ([0, v] ok / [1, e] documented / [2, k] escape).
 The spec-level checkers (spec.fits_dom, spec.meas_bounds, spec.meas_sound_dom, spec.text_meas, spec.not_wrapped) are
 evaluated on the IMPLEMENTATION's lines and measurements of every case; the structural minimum and the option domain
@@ -30,7 +32,8 @@ they are conditioned on are computed by the model from the tree itself.
 from common import s2t, t2s, DOC_ERRORS, CRASH_ERRORS
 import common
 
-OPS = {"c01": {"noshrink": False}, "c09": {}, "text_measure": {}, "text_at_max": {}}
+OPS = {"c01": {"noshrink": False}, "c09": {}, "text_measure": {}, "text_at_max": {},
+       "fits_raw": {}}     # fits_raw: c01 with the UNGUARDED checker spec.fits; known-finding witnesses only, never generated
 
 # the model variant compared with the implementation: 1 = Text.__rich_measure__ splits lines at "\n" only
 # (fixes/C09_text_measure_lines.diff applied), 0 = rich 9.10.0 as found (str.splitlines)
@@ -357,11 +360,55 @@ def lines_at(con, r, w):
     return [s2t("".join(s.text for s in l if not s.is_control)) for l in lines]
 
 
+def ends_nl(t):
+    """mirror of Layout.ends_nl: does the renderable's stream end with a new line?"""
+    k = t[0]
+    if k == 9:
+        return False
+    if k in (4, 5, 13, 14):
+        return ends_nl(t[1])
+    if k == 6:
+        return ends_nl(t[1][-1]) if t[1] else True
+    return True
+
+
+def has_unterminated_group_child(t):
+    """a RenderGroup with a child that ends without a new line (a ProgressBar, possibly behind Styled / Constrain /
+    cast / no-measure wrappers or as the last child of a nested group) and is not the group's last child"""
+    k = t[0]
+    if k == 6:
+        if any(not ends_nl(c) for c in t[1][:-1]):
+            return True
+        return any(has_unterminated_group_child(c) for c in t[1])
+    if k in (1, 2, 3, 4, 5, 13, 14):
+        return has_unterminated_group_child(t[1])
+    if k == 10:
+        return any(has_unterminated_group_child(c) for row in t[2] for c in row)
+    if k == 11:
+        return any(has_unterminated_group_child(c) for c in t[1])
+    if k == 12:
+        return has_unterminated_group_child(t[1]) or any(has_unterminated_group_child(c) for c in t[2])
+    return False
+
+
+def known_pbar_group(op, arg):
+    """matcher for known_findings.json (C01-progress-bar-no-newline-in-group): the unguarded op on a tree in which a
+    group holds a ProgressBar that is not its last child"""
+    try:
+        return op == "fits_raw" and has_unterminated_group_child(arg[1])
+    except Exception:
+        return False
+
+
 def impl(op, arg):
     if op == "c01":
         cfg, t, W, co = arg
         con = console(cfg[0])
         return outcome(lambda: lines_at(con, build(t), W), co)
+    if op == "fits_raw":
+        cfg, t, W = arg
+        con = console(cfg[0])
+        return outcome(lambda: lines_at(con, build(t), W))
     if op == "c09":
         from rich.measure import Measurement
         cfg, t, avail, co = arg
@@ -396,6 +443,9 @@ def spec_cases(op, arg, out):
         cfg, t, W, co = arg
         if out[0] == 0 and not co:
             res.append(("spec.fits_dom", [t, W, out[1]]))
+    if op == "fits_raw":
+        if out[0] == 0:
+            res.append(("spec.fits", [arg[2], out[1]]))
     if op == "c09":
         cfg, t, avail, co = arg
         m, rest = out
@@ -435,7 +485,7 @@ def describe(op, arg):
             return "Tree(%s; %s)" % (show(t[1], d + 1), ", ".join(show(c, d + 1) for c in t[2]))
         return names[k]
     try:
-        if op == "c01":
+        if op in ("c01", "fits_raw"):
             return "render %s at W=%d" % (show(arg[1]), arg[2])
         if op == "c09":
             return "measure %s at avail=%d (console %d)" % (show(arg[1]), arg[2], arg[0][0])
